@@ -17,7 +17,7 @@ NEEDS = {
     'C01': LOCK_TUS, 'C02': LOCK_TUS, 'C03': ['optimistic_lock.cpp'], 'C07': LOCK_TUS + ['verif_driver.cpp'],
     'C08': LOCK_TUS, 'C09': ['optimistic_lock.cpp', 'verif_driver.cpp'], 'C10': LOCK_TUS, 'C11': ['mcs_lock.cpp'],
     'C12': ['mcs_lock.cpp'], 'C13': ['optimistic_lock.cpp'],
-    'C04': THREAD_TUS, 'C05': ['id_manager.cpp'], 'C14': ['id_manager.cpp'], 'C15': ['id_manager.cpp', 'epoch_manager.cpp'],
+    'C04': THREAD_TUS, 'C05': ['id_manager.cpp', 'epoch_manager.cpp'], 'C14': ['id_manager.cpp', 'epoch_manager.cpp'], 'C15': ['id_manager.cpp', 'epoch_manager.cpp'],
     'C16': THREAD_TUS, 'C17': THREAD_TUS, 'C20': THREAD_TUS,
     'C06': ZIPF_TUS, 'C19': ZIPF_TUS,
 }
